@@ -418,6 +418,12 @@ impl<'a> Checker<'a> {
             Err(p) => self.fail(ep, start, format!("panicked: {}", p.short())),
             Ok(Err(_)) => self.fail(ep, start, "does not terminate".to_string()),
             Ok(Ok(g)) => {
+                // an edge's node() is the node inside it
+                if let Some(e) = g.iter().find(|e| match e {
+                    NodeEdge::Start(n) | NodeEdge::End(n) => e.node() != *n,
+                }) {
+                    self.fail("NodeEdge::node", start, format!("{}.node() = {:?}", kind_edge(e), e.node()));
+                }
                 if g != want {
                     self.fail(ep, start, format!("yielded {} edges {:?}..., expected {} edges {:?}...", g.len(), g.iter().take(6).map(kind_edge).collect::<Vec<_>>(), want.len(), want.iter().take(6).map(kind_edge).collect::<Vec<_>>()));
                 }
